@@ -168,6 +168,11 @@ def _serialize_recursive(
     return {key: recur(value) for key, value in data.items()}
 
 
+def _pointer_segment(key: str) -> str:
+    """Escape a definitions key for use in a JSON pointer (RFC 6901)."""
+    return key.replace("~", "~0").replace("/", "~1")
+
+
 def _from_definitions(
     definitions: Optional[Dict[str, Element]],
     element: Element,
@@ -178,7 +183,7 @@ def _from_definitions(
         return default
     return next(
         (
-            {"$ref": f"#/definitions/{key}"}
+            {"$ref": f"#/definitions/{_pointer_segment(key)}"}
             for key, definition in definitions.items()
             if definition == element
         ),
